@@ -105,7 +105,7 @@ class C13(RexDriver):
               '(both orders) and two-shape sets differing in one fragment '
               'class x {default, max_patterns 1, 2, min_strings_per_pattern '
               '2} x variableLengthFrags off/on, tag off/on'),
-             ('refine', 'E2: sets of 4-6 from the class-refinement pools x 8 '
+             ('refine', 'E2: sets of 4-5 from the class-refinement pools x 8 '
               'Size settings x {default, max_patterns=1}, tagged run '
               'replaying the same answers')]
         if tier == 'thorough':
@@ -171,10 +171,12 @@ class C13(RexDriver):
                 yield {'ex': xs, 'pts': 'prune-vlf', 'forms': 'list'}
             for xs in A.two_shape_sets(tier):
                 yield {'ex': xs, 'pts': 'prune-vlf', 'forms': 'list'}
+            for xs in A.boundary_sets():
+                yield {'ex': xs, 'pts': 'prune-vlf', 'forms': 'list'}
         elif layer == 'refine':
             for (name, pool, sizes, kw) in A.REFINE_POOLS:
                 for n in sizes:
-                    if n > 6:
+                    if n > 5:
                         continue
                     for xs in A.example_sets(pool, n):
                         for st in A.SIZE_SETTINGS('quick'):
